@@ -760,6 +760,13 @@ func (e *Engine) evalSpec(env *specEnv, x ast.Expr) specVal {
 				v[k] = Ite(has, env.s.selectIn(env.heap, "mapval("+tk+")"+sl.Suffix, sl.Sort, addr), zeroOf(sl.Sort))
 			}
 			return specVal{v, u.Elem()}
+		case *types.Array:
+			// array values are flattened element by element: constant index only
+			if i.v[0].K == KInt && i.v[0].I >= 0 && i.v[0].I < u.Len() {
+				n := len(e.layout(u.Elem()))
+				k := int(i.v[0].I) * n
+				return specVal{append(Value{}, a.v[k:k+n]...), u.Elem()}
+			}
 		}
 		e.specFail(x, "index on "+a.t.String())
 	case *ast.CallExpr:
